@@ -246,3 +246,204 @@ def write_ops(path, lines):
     with open(path, "w") as f:
         f.write("\n".join(lines))
         f.write("\n")
+
+
+# =========================================================================================
+# exhaustive sweeps (finite sub-domains enumerated completely; `stride` thins them for the
+# quick tier, `phase` rotates which residue class is taken so that different seeds cover
+# different slices)
+# =========================================================================================
+ALL_CBS = ["r %d 1" % k for k in range(12)]
+
+def P(a, b, c, d, ea=0, eb=0, ec=0, ed=0):
+    return "p %d %d %d %d %d %d %d %d" % (a, b, c, d, ea, eb, ec, ed)
+
+def sweep_block_b(stride=1, phase=0, ebs=(0, 1, 2, 3, 4, 255)):
+    """S1: all 65 536 values of block B x error codes of B, from three prior states"""
+    out = []
+    priors = [
+        ["new"] + ALL_CBS,
+        ["new"] + ALL_CBS + [P(0x1234, 0x0408 | (5 << 5), 0xE0E1, 0x4142), P(0x1234, 0x2010, 0x4142, 0x4344)],
+        ["new"] + ALL_CBS + ["c 0 0 2", "c 1 0 2", "c 2 0 2", "c 0 1 2", "c 1 1 2", "c 2 1 2",
+                               P(0xF212, 0x0000 | (31 << 5) | 0x400 | 0x18, 0x0101, 0x2020), P(0xF212, 0x2000, 0x6162, 0x6364)],
+    ]
+    for pi_, prior in enumerate(priors):
+        out += prior
+        for b in range(phase % stride, 65536, stride):
+            eb = ebs[(b // stride + pi_) % len(ebs)] if stride > 1 else None
+            for e in ([eb] if eb is not None else ebs):
+                out.append(P(0x1234 + pi_, b, 0x4145, 0x4647, 0, e, 0, 0))
+    return out
+
+def sweep_chars(stride=1, phase=0):
+    """S2: all 256 bytes x every lane x every address x every text-carrying group/version/flag"""
+    out = ["new"] + ALL_CBS
+    n = 0
+    def lanes(btmpl, nlanes_c, addr_count):
+        nonlocal n
+        res = []
+        for addr in range(addr_count):
+            for lane in range(2 + 2 * nlanes_c):
+                for byte in range(256):
+                    n += 1
+                    if (n + phase) % stride: continue
+                    c, d = 0x4142, 0x4344
+                    if nlanes_c and lane < 2:
+                        c = (byte << 8) | 0x42 if lane == 0 else 0x4100 | byte
+                    else:
+                        l = lane - 2 * nlanes_c
+                        d = (byte << 8) | 0x44 if l == 0 else 0x4300 | byte
+                    res.append(P(0x1234, btmpl | addr, c, d))
+        return res
+    out += lanes(0x0000, 0, 4)            # 0A
+    out += lanes(0x0800, 0, 4)            # 0B
+    out += lanes(0x2000, 1, 16)           # 2A flag A
+    out.append("clear")
+    out += lanes(0x2010, 1, 16)           # 2A flag B
+    out.append("clear")
+    out += lanes(0x2800, 0, 16)           # 2B flag A
+    out.append("clear")
+    out += lanes(0x2810, 0, 16)           # 2B flag B
+    out += lanes(0xA000, 1, 2)            # 10A
+    out += lanes(0xA800, 1, 2)            # 10B (stores nothing)
+    return out
+
+def sweep_block_c(stride=1, phase=0):
+    """S3: all 65 536 values of block C in 0A (AF) and 1A (ECC), both check modes"""
+    out = []
+    for ext in (0, 1):
+        out += ["new"] + ALL_CBS + ["x %d" % ext]
+        for c in range(phase % stride, 65536, stride):
+            out.append(P(0x1234, 0x0000, c, 0x2020))
+            if ext:
+                out.append(P(0x1234, 0x0000, c, 0x2020))
+            if c % 4096 == 0:
+                out.append("clear")
+        out.append("clear")
+        for c in range(phase % stride, 65536, stride):
+            out.append(P(0x5234, 0x1000, c, 0))
+        # 0B / 1B and errored variants never add anything
+        for c in range((phase * 7) % (stride * 16), 65536, stride * 16):
+            out.append(P(0x1234, 0x0800, c, 0x2020))
+            out.append(P(0x1234, 0x1800, c, 0))
+            out.append(P(0x1234, 0x0000, c, 0x2020, 0, 1, 0, 0))
+            out.append(P(0x1234, 0x0000, c, 0x2020, 0, 0, 1, 0))
+    return out
+
+def sweep_thresholds(text=0, stride=1, phase=0):
+    """S4: thresholds 3x3 x progressive x (eb, ed) in 0..4 x 256 bytes x 4 prior cell states"""
+    btmpl = {0: 0x0000, 1: 0x2000, 2: 0xA000}[text]
+    out = ["new"] + ALL_CBS
+    n = 0
+    for info in range(3):
+        for data in range(3):
+            for prog in range(2):
+                out += ["c %d 0 %d" % (text, info), "c %d 1 %d" % (text, data), "g %d %d" % (text, prog)]
+                for prior in range(4):
+                    for eb in range(5):
+                        for ed in range(5):
+                            for byte in range(256):
+                                n += 1
+                                if (n + phase) % stride: continue
+                                out.append("clear")
+                                # prior cell states: never received / 'A' at level 0 / 'A' at a corrected level / same byte at level 0
+                                if prior == 1: out.append(P(0x1234, btmpl, 0x4141, 0x4141))
+                                elif prior == 2: out.append(P(0x1234, btmpl, 0x4141, 0x4141, 0, min(info, 1), min(data, 1), min(data, 1)))
+                                elif prior == 3: out.append(P(0x1234, btmpl, (byte << 8) | byte, (byte << 8) | byte))
+                                w = (byte << 8) | byte
+                                out.append(P(0x1234, btmpl, w, w, 0, eb, ed, ed))
+    return out
+
+def sweep_ct(stride=1, phase=0):
+    """S5: all 2^17 MJD x a few (hour, minute, offset) triples; all 32x64x64 codes x 6 MJDs"""
+    out = ["new"] + ALL_CBS
+    triples = [(0, 0, 0), (23, 59, 0), (0, 0, 0x20 | 1), (23, 30, 1), (0, 15, 0x20 | 31), (23, 45, 31), (12, 0, 24), (1, 29, 0x20 | 3)]
+    def g(mjd, hour, minute, off, ver=0, eb=0, ec=0, ed=0):
+        b = 0x4000 | (ver << 11) | (mjd >> 15)
+        c = ((mjd & 0x7FFF) << 1) | (hour >> 4)
+        d = ((hour & 15) << 12) | (minute << 6) | off
+        return P(0x1234, b, c, d, 0, eb, ec, ed)
+    for mjd in range(phase % stride, 1 << 17, stride):
+        for t in ([triples[(mjd // stride) % len(triples)]] if stride > 1 else triples):
+            out.append(g(mjd, *t))
+    n = 0
+    for mjd in (0, 15078, 51603, 60275, 88128, 131071):
+        for hour in range(32):
+            for minute in range(64):
+                for off in range(64):
+                    n += 1
+                    if (n + phase) % (stride * 8 if stride > 1 else 1): continue
+                    out.append(g(mjd, hour, minute, off))
+    # gates: version B, errors in B/C/D
+    for mjd in (0, 60275, 131071):
+        out += [g(mjd, 12, 30, 2, ver=1), g(mjd, 12, 30, 2, eb=1), g(mjd, 12, 30, 2, ec=1), g(mjd, 12, 30, 2, ed=1), g(mjd, 12, 30, 2, ed=3)]
+    out.append("r 11 0")
+    out.append(g(60275, 12, 30, 2))
+    return out
+
+def sweep_settings():
+    """S6: every setter key x all 256 values, reading everything back after each call"""
+    out = ["new"]
+    for t in range(3):
+        for k in range(2):
+            for v in range(256):
+                out.append("c %d %d %d" % (t, k, v))
+    for rounds in range(3):
+        for t in range(3):
+            for v in (1, 0, 1):
+                out.append("g %d %d" % (t, v))
+        for v in (1, 0, 1):
+            out.append("x %d" % v)
+        out.append(P(0x1234, 0x0000, 0x0102, 0x4142))
+        out.append("clear")
+    return out
+
+def sweep_ecc(stride=1, phase=0):
+    """17 PI classes x 256 ECC x 8 variants x 2 versions (+ error patterns)"""
+    out = ["new"] + ALL_CBS
+    n = 0
+    for cls in range(17):
+        for ver in range(2):
+            for variant in range(8):
+                for ecc in range(256):
+                    n += 1
+                    if (n + phase) % stride and not (variant == 0 and ver == 0): continue
+                    pi = 0x1234 if cls == 0 else ((cls - 1) << 12) | 0x0ABC
+                    ea = 1 if cls == 0 else 0
+                    if ecc == 0:
+                        out.append("clear")
+                    out.append(P(pi, 0x1000 | (ver << 11), (variant << 12) | ecc, 0, ea, 0, 0, 0))
+    for ecc in (0xE0, 0xE2, 0xA0):
+        out += [P(0xD234, 0x1000, ecc, 0, 0, 1, 0, 0), P(0xD234, 0x1000, ecc, 0, 0, 0, 1, 0), P(0xD234, 0x1000, 0x8000 | ecc, 0)]
+    return out
+
+def hex_malformed():
+    """C14: every position x every byte value 1..255 in 16- and 18-long carriers; lengths 0..40; NULL"""
+    out = ["new"] + ALL_CBS
+    base16 = b"1234ABCD5678ef90"
+    base18 = base16 + b"1b"
+    for base in (base16, base18):
+        for pos in range(len(base)):
+            for v in range(1, 256):
+                s = bytearray(base); s[pos] = v
+                out.append(hexstr(s))
+    for n in range(0, 41):
+        out.append(hexstr((base16 * 3)[:n]))
+    out.append("s N")
+    for s in (b" 234567890123456", b"-234567890123456", b"+234567890123456", b"0x12567890123456", b"123456789012 456",
+              b"1234567890123456-1", b"1234567890123456 1", b"1234567890123456+f", b"1234\t6789012345600", b"12345678901234560x"):
+        out.append(hexstr(s))
+    return out
+
+def hex_all_blocks(stride=1, phase=0):
+    """all 65 536 four-digit blocks in both letter cases, in each of the four block positions"""
+    out = ["new"] + ALL_CBS
+    for v in range(phase % stride, 65536, stride):
+        pos = (v // stride) % 4
+        blocks = ["1234", "0000", "0000", "2020"]
+        blocks[pos] = ("%04X" % v) if (v // (4 * stride)) % 2 == 0 else ("%04x" % v)
+        out.append(hexstr("".join(blocks).encode()))
+    for e in range(256):
+        out.append(hexstr(("1234" + "0000" + "0000" + "4142" + "%02X" % e).encode()))
+        out.append(hexstr(("1234" + "0000" + "0000" + "4142" + "%02x" % e).encode()))
+    return out
